@@ -85,17 +85,21 @@ Clause(r, c) ==
                /\ RefRoot(f, m.leaves[f].length, m.plen) \in SeqToSet(m.leaves[f].root)
     [] c = "C02.empty" -> \A f \in DOMAIN m.leaves : m.leaves[f].length = 0 => ~m.leaves[f].has_root
     [] c = "C02.layers" ->
+         \* one entry per distinct root of a file larger than a piece (files with identical bytes share
+         \* their root, hence their entry: owners lists every leaf whose root equals the key)
          /\ m.has_layers /\ m.layers_is_dict /\ m.plen > 0
-         /\ \A k \in DOMAIN m.layers : Len(m.layers[k].owners) = 1 /\ m.layers[k].key_len = 32
-         /\ LET own == [k \in DOMAIN m.layers |-> m.layers[k].owners[1]] IN
-            /\ NoDup(own)
-            /\ SeqToSet(own) = {f \in DOMAIN m.leaves : InLayers(m.leaves[f].length, m.plen)}
-            /\ \A k \in DOMAIN m.layers :
-                  LET f == own[k]
-                      ref == RefLayer(f, m.leaves[f].length, m.plen)
-                  IN /\ m.layers[k].val_len = 32 * Len(ref)
-                     /\ Len(m.layers[k].hashes) = Len(ref)
-                     /\ \A j \in DOMAIN ref : ref[j] \in SeqToSet(m.layers[k].hashes[j])
+         /\ \A k \in DOMAIN m.layers :
+               /\ Len(m.layers[k].owners) >= 1 /\ m.layers[k].key_len = 32
+               /\ \A o \in SeqToSet(m.layers[k].owners) : InLayers(m.leaves[o].length, m.plen)
+         /\ NoDup([k \in DOMAIN m.layers |-> m.layers[k].owners])
+         /\ \A f \in DOMAIN m.leaves : InLayers(m.leaves[f].length, m.plen) =>
+               \E k \in DOMAIN m.layers : f \in SeqToSet(m.layers[k].owners)
+         /\ \A k \in DOMAIN m.layers :
+               LET f == m.layers[k].owners[1]
+                   ref == RefLayer(f, m.leaves[f].length, m.plen)
+               IN /\ m.layers[k].val_len = 32 * Len(ref)
+                  /\ Len(m.layers[k].hashes) = Len(ref)
+                  /\ \A j \in DOMAIN ref : ref[j] \in SeqToSet(m.layers[k].hashes[j])
     \* ---- C03: hybrid, the two views describe the same payload -------------------
     [] c = "C03.order" ->
          IF r.single THEN ~m.has_files /\ Len(m.leaves) = 1 /\ m.length = m.leaves[1].length
